@@ -13,8 +13,9 @@
 //
 // O1: B.ValidateProposal(A.ProduceProposal()) succeeds and B (and A) commit the proposed header hash.
 // O2: for every committed height h the block served by A hashes to the certified hash, A and B
-//     serve the same bytes, and C reproduces every block hash and state root from genesis; the
-//     three state dumps are equal at the tip.
+//
+//	serve the same bytes, and C reproduces every block hash and state root from genesis; the
+//	three state dumps are equal at the tip.
 package main
 
 import (
@@ -154,7 +155,7 @@ func main() {
 	}
 	only := flag.String("only", "", "comma separated item names: restrict the alphabet (mutant runs)")
 	nworkers := flag.Int("workers", 0, "worker processes (0 = one per CPU)")
-	r := mc.Start("C11", "model_checking", 85*time.Second, 27*time.Minute)
+	r := mc.Start("C11", "model_checking", 70*time.Second, 27*time.Minute)
 	r.Assumptions = []string{
 		"nodes are driven through the controller's exported entry points in the order the listeners call them (env.Node); bft, p2p and timers are not running; certificates are signed by the whole committee",
 		"governance vote mode APPROVE_LIST on A and B with the same proposals.json (bft deadline pinned, see env/node.go); C syncs with the default accept-all mode like any syncing node",
